@@ -108,6 +108,7 @@ type Conn struct {
 	writeBuf       *bufio.Writer
 	seq            uint16
 	closed         bool
+	closeLock      sync.Mutex
 	stanzaWriter   *stanzaWriter
 	maxBufSize     int
 }
@@ -241,10 +242,9 @@ func (c *Conn) flush(t xmlstream.Encoder) error {
 // Any blocked Read or Write operations will be unblocked and return errors.
 // If the write buffer contains data it will be flushed.
 func (c *Conn) Close() error {
-	if c.closed {
+	if !c.claimClose() {
 		return nil
 	}
-	c.closed = true
 
 	// Flush any remaining data to be written.
 	err := c.Flush()
@@ -276,11 +276,24 @@ func (c *Conn) Close() error {
 	return respReadCloser.Close()
 }
 
-func (c *Conn) closeNoNotify(t xmlstream.Encoder) error {
+// claimClose marks the connection as closed and reports whether this call was
+// the one that did it: Close (called by the user) and closeNoNotify (called by
+// the serve loop when the peer closes) may run at the same time and only one
+// of them may tear down the stream.
+func (c *Conn) claimClose() bool {
+	c.closeLock.Lock()
+	defer c.closeLock.Unlock()
 	if c.closed {
-		return nil
+		return false
 	}
 	c.closed = true
+	return true
+}
+
+func (c *Conn) closeNoNotify(t xmlstream.Encoder) error {
+	if !c.claimClose() {
+		return nil
+	}
 
 	c.handler.rmStream(c.stanzaWriter.sid)
 
